@@ -322,6 +322,13 @@ def run(chk, prog):
     no_state_between_calls(chk, prog.fn("vfps::SourceMap::calcCoefficiants"), "R8")
     # ---- R6: the source-map table is rebuilt whenever the displacement field changes (a stale table moves the grid by old offsets) ----
     K.offset_table_sync(chk, prog, "R6")
+    # ---- R9: source indices are computed and stored in the grid's index width --------------------------------------------------------------
+    from .common import no_index_narrowing
+    fam_ = {"vfps::SourceMap", "vfps::KickMap", "vfps::RFKickMap", "vfps::DynamicRFKickMap", "vfps::DriftMap", "vfps::WakeKickMap",
+            "vfps::WakePotentialMap", "vfps::FokkerPlanckMap", "vfps::Identity", "vfps::RotationMap"}
+    nconv_ = no_index_narrowing(chk, prog, "R9", lambda f: f.get("class") in fam_)
+    chk.floor("R9-integral-conversions", nconv_, 60)
+    chk.ok("R9", "src/SM", "%d integral conversions in the source-map classes examined: no cell index or size passes through an 8/16-bit integer" % nconv_)
     chk.notes.append("C01: column sums of every transport operator (kick maps via weights+index maps, Fokker-Planck stencils incl. "
                      "stencil-switch rows, identity) decided as polynomial identities / index equalities for all offsets, sizes, "
                      "orders, FPTypes. Not decided: float rounding, the grid border, OpenCL kernels.")
